@@ -34,6 +34,21 @@ from .version import VERSION_STRING
 
 log = logging.getLogger(__name__)
 
+_COLORAMA_INITIALIZED: bool = False
+
+
+def _init_colorama():
+    """Initializes colorama at most once per process.
+
+    Every call to :func:`colorama.init` wraps the *current* ``sys.stdout`` and ``sys.stderr``, so calling it for each
+    new :class:`Printer` nests the wrappers ever deeper until writing to them exceeds the recursion limit.
+
+    """
+    global _COLORAMA_INITIALIZED
+    if not _COLORAMA_INITIALIZED:
+        colorama.init()
+        _COLORAMA_INITIALIZED = True
+
 
 class Writer(Protocol):
     """A protocol for basic IO writers that is a subset of :class:`typing.IO`."""
@@ -479,7 +494,7 @@ class Printer(StatusWriter, RawWriter):
         self._ansi_color = None
         self.ansi_color = ansi_color
         if self.ansi_color:
-            colorama.init()
+            _init_colorama()
         self._strikethrough = False
         self._plusthrough = False
         if options is not None:
